@@ -229,7 +229,7 @@ theorem pass_txt (input : Bytes) (flags : Nat) (hq : NoQ (sqliInit input flags).
   simp only [hck, hrp]
   exact ⟨_, rfl⟩
 
-theorem txt_bytes : ∀ {r : Bytes}, Txt r → ∀ c ∈ r, isWordByteB c = true ∨ isSepByte c = true ∨ c = 46
+theorem txt_bytes : ∀ {r : Bytes}, Txt r → ∀ c ∈ r, isWordByteB c = true ∨ isSepByte c = true ∨ c = 46 ∨ c = 43 ∨ c = 45
   | _, .nil, c, hc => by cases hc
   | _, .space hr, c, hc => by
     rcases List.mem_cons.mp hc with rfl | h
@@ -261,21 +261,39 @@ theorem txt_bytes : ∀ {r : Bytes}, Txt r → ∀ c ∈ r, isWordByteB c = true
       · have := List.all_eq_true.mp hall1 c h
         exact Or.inl (by simp [isWordByteB, this])
       · rcases List.mem_cons.mp h with rfl | h
-        · exact Or.inr (Or.inr rfl)
+        · exact Or.inr (Or.inr (Or.inl rfl))
         · have := List.all_eq_true.mp hall2 c h
           exact Or.inl (by simp [isWordByteB, this])
+    · exact txt_bytes hr c h
+  | _, .sci (w := w) hw _ hr, c, hc => by
+    rcases List.mem_append.mp hc with h | h
+    · obtain ⟨m, x, e, sg, rfl, ⟨_, hallm⟩, ⟨_, hallx⟩, he, hs⟩ := hw
+      rcases List.mem_append.mp h with h | h
+      · have := List.all_eq_true.mp hallm c h
+        exact Or.inl (by simp [isWordByteB, this])
+      · rcases List.mem_cons.mp h with rfl | h
+        · rcases he with rfl | rfl <;> exact Or.inl (by decide)
+        · rcases List.mem_append.mp h with h | h
+          · rcases hs with rfl | rfl | rfl
+            · cases h
+            · have : c = 43 := by simpa using h
+              exact Or.inr (Or.inr (Or.inr (Or.inl this)))
+            · have : c = 45 := by simpa using h
+              exact Or.inr (Or.inr (Or.inr (Or.inr this)))
+          · have := List.all_eq_true.mp hallx c h
+            exact Or.inl (by simp [isWordByteB, this])
     · exact txt_bytes hr c h
   | _, .dotted (w := w) hw _ hr, c, hc => by
     rcases List.mem_append.mp hc with h | h
     · rcases (dotted_bytes hw).1 c h with h' | h'
       · exact Or.inl h'
-      · exact Or.inr (Or.inr h')
+      · exact Or.inr (Or.inr (Or.inl h'))
     · exact txt_bytes hr c h
   | _, .dottedAt (w := w) hw _ hr, c, hc => by
     rcases List.mem_append.mp hc with h | h
     · rcases (dotted_bytes hw).1 c h with h' | h'
       · exact Or.inl h'
-      · exact Or.inr (Or.inr h')
+      · exact Or.inr (Or.inr (Or.inl h'))
     · exact txt_bytes hr c h
   | _, .var (vw := vw) hv _ hr, c, hc => by
     rcases List.mem_cons.mp hc with rfl | h
@@ -286,7 +304,7 @@ theorem txt_bytes : ∀ {r : Bytes}, Txt r → ∀ c ∈ r, isWordByteB c = true
         simp only [Bool.or_eq_true, beq_iff_eq] at this
         rcases this with h' | h'
         · exact Or.inl h'
-        · exact Or.inr (Or.inr h')
+        · exact Or.inr (Or.inr (Or.inl h'))
       · exact txt_bytes hr c h
   | _, .word (w := w) hw _ hr, c, hc => by
     rcases List.mem_append.mp hc with h | h
@@ -309,12 +327,14 @@ theorem isSQLi_txt (input : Bytes) (htxt : Txt input) : isSQLi input = .ok (fals
       have : indexByte input q = none := by
         rw [indexByte_none_iff]
         intro hm
-        rcases txt_bytes htxt q hm with h | h | h
+        rcases txt_bytes htxt q hm with h | h | h | h | h
         · have := wordByte_facts q h
           rcases hq with rfl | rfl
           · exact this.2.2.2.1 rfl
           · revert h; decide
         · rcases hq with rfl | rfl <;> revert h <;> decide
+        · rcases hq with rfl | rfl <;> cases h
+        · rcases hq with rfl | rfl <;> cases h
         · rcases hq with rfl | rfl <;> cases h
       simp [this]
     simp only [hp, Bool.false_eq_true, ↓reduceIte, gated, noPass, hnoq 39 (Or.inl rfl), hnoq 34 (Or.inr rfl),
